@@ -1352,6 +1352,8 @@ class Run:
         # call that resizes 1 -> 3, creates a local CDict, grows the round buffer and allocates both LDM tables (13 allocations)
         for k in range(0, 15):
             cases.append(("1", "-", ["I3/%s/12/3e8/14/0" % (fail_at(k) if k else "-"), "I3/-/12/3e8/14/0", "G1000/1", "I3/-/0/0/14/0", "I3/-/10/0/14/80000", "I2/-/14/186a0/17/0"]))
+        # more unflushed jobs than the buffer pool has slots (2 workers: job table of 8, pool of 7): the 8th release frees; then no free job slot
+        cases.append(("2", "-", ["G1000/1"] * 9 + ["F0"] * 9 + ["G1000/1", "S3/-", "G7d0/1"]))
         for _ in range(30 if ctx.quick else 400):
             n0 = rng.choice([1, 1, 2, 3, 4, 6])
             ops, infl = [], 0
@@ -1367,12 +1369,14 @@ class Run:
                     nb = rng.choice([0, 1, 2, 3, 4, 5, 6, 8, 13])
                     ops.append("S%x/%s" % (nb, rng.choice(["-", "-", fail_at(rng.randint(1, 10)), fail_at(rng.randint(1, 4))])))
                     infl = 0 if nb else infl       # S0 is refused: the buffers stay in flight (the smallest job table has 4 slots)
-                elif k == "G" and infl < 3:
-                    ops.append("G%x/%d" % (rng.choice([8, 100, 1000, 1000, 7999, 8000, 8008, 100000]), rng.choice([1, 1, 1, 0])))
-                    infl += 1
+                elif k == "G" and infl < 10:
+                    for _ in range(rng.choice([1, 1, 1, 2, 5])):
+                        ops.append("G%x/%d" % (rng.choice([8, 100, 1000, 1000, 7999, 8000, 8008, 100000]), rng.choice([1, 1, 1, 0])))
+                        infl += 1
                 elif k == "F":
-                    ops.append("F%x" % rng.choice([0, 0, 1, 2]))
-                    infl = max(0, infl - 1)
+                    for _ in range(rng.choice([1, 1, 2, 6])):
+                        ops.append("F%x" % rng.choice([0, 0, 1, 2, 7]))
+                        infl = max(0, infl - 1)
                 elif k == "Q":
                     ops.append("Q%x/%d" % (12 * rng.choice([1, 100, 800, 801, 6500]), rng.choice([1, 1, 0])))
                 elif k == "C":
